@@ -1,4 +1,80 @@
-import LecModel
+/-
+  C05 — Every flat-XOR table has distance hd; its decoder recovers all < hd erasures.
+
+  All statements range over `LecGen.xorTables`, regenerated from
+  include/xor_codes/xor_hd_code_defs.h on every run: a flipped bit in any of the 76 arrays or a
+  wrong slot in the `[hd][m][k]` pointer tables changes the generated file and the kernel
+  re-decides (per table, `decide +kernel` on a verified checker).
+  `tables_wellformed`   both sides of every slot non-NULL; m parity masks below 2^k, k data masks
+                        below 2^m; data-side and parity-side tables describe the same bipartite
+                        graph;
+  `whitelist`           the table set is exactly the shape whitelist of `init_xor_hd_code`
+                        (for all naturals k, m, hd): every accepted shape has a table, and a shape
+                        outside it is refused by create (C13.create_ok_iff);
+  `parity_is_xor`       every parity payload encode produces is exactly the XOR of the data
+                        payloads its fixed equation names — for every payload length and content;
+  `min_distance`        no non-empty set of fewer than hd columns of the parity-check matrix
+                        [P | I_m] sums to zero, i.e. minimum distance ≥ hd;
+  `decode_all`, `reconstruct_all`
+                        for every table, payload length, data content and ascending erasure list
+                        with fewer than hd entries (data or parity in any mix) the decode plan
+                        exists and restores every data and parity payload, and the reconstruct
+                        plan restores every member of the erasure list.
+  Build flavours: `xor_bufs_and_store` (128-bit SSE2 / word loop + byte tail) is modelled as
+  byte-wise xor; both builds of libXorcode run the full correspondence on every check
+  (payload sizes that are and are not multiples of 16).
+-/
+import LecProofs.XorTablesOK
+import LecProofs.XorContracts
 import LecGen
 namespace LecProps.C05
+open Lec
+
+theorem tables_wellformed :
+    (∀ s ∈ LecGen.xorSlots, s.2.2.2.1.isSome = true ∧ s.2.2.2.2.isSome = true) ∧
+    (∀ T ∈ LecGen.xorTables, XorCheck.WF T) :=
+  ⟨xorSlots_nonnull, xorTables_wf⟩
+
+theorem whitelist (k m hd : Nat) : xorShapeOK k m hd = (LecGen.xorTableFor hd m k).isSome :=
+  xorTables_whitelist k m hd
+
+theorem table_count : LecGen.xorTables.length = 38 := by decide
+
+theorem parity_is_xor (T : XorTable) (bs : Nat) (dataP parP : List Bytes)
+    (h : IsStripe (xorBackend T) T.k T.m bs dataP parP) :
+    parP = (List.range T.m).map (fun j => interp bs dataP (T.pbm j)) :=
+  ((xor_isStripe_iff T bs dataP parP).1 h).2.2
+
+theorem min_distance : ∀ T ∈ LecGen.xorTables, XorCheck.MinDist T := xorTables_minDist
+
+theorem decode_all (T : XorTable) (hT : T ∈ LecGen.xorTables) (bs : Nat)
+    (d : List Bytes) (hk : d.length = T.k) (hd : ∀ x ∈ d, x.length = bs)
+    (E : List Nat) (hE : T.ErasureList E) :
+    ∃ ops, T.planDecode E = .ok ops ∧
+      (runOps xorBytes (zeros bs) ops (xorEraseBufs (zeros bs) T E (T.stripe bs d))).data = d ∧
+      (runOps xorBytes (zeros bs) ops (xorEraseBufs (zeros bs) T E (T.stripe bs d))).parity
+        = (List.range T.m).map (fun j => interp bs d (T.pbm j)) :=
+  xorTables_decode_bytes T hT bs d hk hd E hE
+
+theorem reconstruct_all (T : XorTable) (hT : T ∈ LecGen.xorTables) (bs : Nat)
+    (d : List Bytes) (hk : d.length = T.k) (hd : ∀ x ∈ d, x.length = bs)
+    (E : List Nat) (hE : T.ErasureList E) (dest : Nat) (hdest : dest ∈ E) :
+    ∃ ops, T.planReconOne E dest = .ok ops ∧
+      (runOps xorBytes (zeros bs) ops (xorEraseBufs (zeros bs) T E (T.stripe bs d))).get (zeros bs)
+        (T.bufOf dest) = (T.stripe bs d).get (zeros bs) (T.bufOf dest) :=
+  xorTables_recon_bytes T hT bs d hk hd E hE dest hdest
+
+/-- the tolerance hd − 1 never exceeds m, so the front end's count check never rejects a set the
+    code tolerates. -/
+theorem tolerance_fits : ∀ T ∈ LecGen.xorTables, 1 ≤ T.hd ∧ T.hd - 1 ≤ T.m := xorTables_tolerance
+
+/-- non-vacuity: the hand-made (10,5,3) table is among the generated ones. -/
+example : (LecGen.xorTableFor 3 5 10).map (·.parityBms) = some [163, 300, 337, 582, 664] := by decide
+
+#print axioms tables_wellformed
+#print axioms whitelist
+#print axioms parity_is_xor
+#print axioms min_distance
+#print axioms decode_all
+#print axioms reconstruct_all
 end LecProps.C05
